@@ -359,7 +359,7 @@ func familyToPath(name string, strs []string) fw.Family {
 			glyphs := face.Glyphs(s) // the layout: glyph ids, advances, offsets
 			upem := float64(src.fr.Upem)
 			f := face.Size / upem
-			if face.Size != v.size*25.4/72 || relErr(face.MmPerEm, f) > 1e-12 {
+			if relErr(face.Size, v.size*25.4/72) > 1e-12 || relErr(face.MmPerEm, f) > 1e-12 {
 				report(r, "face-scale", fmt.Sprintf("Face(%g pt): Size %v mm, MmPerEm %v; a point is 25.4/72 mm and the font has %g units per em", v.size, face.Size, face.MmPerEm, upem))
 				return
 			}
